@@ -2,6 +2,7 @@ package props
 
 import (
 	"fmt"
+	"go/constant"
 	"go/token"
 	"go/types"
 	"sort"
@@ -15,9 +16,10 @@ import (
 func init() {
 	Registry["C19"] = Entry{
 		Run: runC19,
-		Explanation: "Decides two structural necessary conditions of 'semantic edits preserve behaviour' (thin claim): " +
+		Explanation: "Decides three structural necessary conditions of 'semantic edits preserve behaviour' (thin claim): " +
 			"G1 every holder of a reference is visited: for each refactoring entry point, the set of syntax fields read by the functions it reaches inside package refactoring (including the Apply methods of the edit values it creates) contains every place where the renamed / removed name can occur (call bindings, modifier bindings, return bindings, pipeline retains, the top-level call where applicable), " +
-			"G2 every expression container is traversed: the expression walkers that rewrite or remove references have an arm for each expression kind that can contain a reference in an uncompiled AST (RefExp, SplitExp, ArrayExp, MapExp) and recurse into the containers (sibling agreement). " +
+			"G2 every expression container is traversed: the expression walkers that rewrite or remove references have an arm for each expression kind that can contain a reference in an uncompiled AST (RefExp, SplitExp, ArrayExp, MapExp) and recurse into the containers (sibling agreement), " +
+			"G3 names are matched whole: no strings.HasPrefix/HasSuffix/Contains/Index of a syntax name field against a non-constant name without a '.' delimiter anywhere in package refactoring. " +
 			"NOT decided: that the edited program compiles, call-graph equality, round-trip of renames.",
 		Assumptions: commonAssumptions,
 	}
@@ -173,6 +175,9 @@ func runC19(c *an.Ctx) {
 			fmt.Sprintf("the function that walks the places where the name can occur must visit each of them; never read: %v", missing))
 	}
 
+	// ---------------- G3 ----------------
+	ruleG3(c, p.FuncsOf(pkgRefac))
+
 	// ---------------- G2 ----------------
 	walkers := []struct {
 		name     string
@@ -232,6 +237,116 @@ func runC19(c *an.Ctx) {
 			c.Check("G2", "recurses("+w.name+")", fn.Pos(), rec, "the walker must descend into nested expressions (self-recursion or FindRefs)")
 		}
 	}
+}
+
+// G3: names are matched whole.  A dotted reference path (RefExp.OutputId etc.) is matched against a
+// parameter or call name by equality, or by its '.'-delimited first segment.  A partial match
+// (strings.HasPrefix / HasSuffix / Contains with a name as the needle) also matches sibling names that
+// merely share the prefix, so the edit rewrites references it must leave alone.
+func ruleG3(c *an.Ctx, fns []*ssa.Function) {
+	n, scanned := 0, 0
+	for _, fn := range fns {
+		scanned++
+		an.Instrs(fn, func(in ssa.Instruction) {
+			call, ok := in.(*ssa.Call)
+			if !ok {
+				return
+			}
+			f := call.Call.StaticCallee()
+			if f == nil || f.Pkg == nil || f.Pkg.Pkg.Path() != "strings" || len(call.Call.Args) != 2 {
+				return
+			}
+			switch f.Name() {
+			case "HasPrefix", "HasSuffix", "Contains", "Index", "LastIndex":
+			default:
+				return
+			}
+			hay, needle := call.Call.Args[0], call.Call.Args[1]
+			if _, isC := an.ConstVal(needle); isC {
+				return
+			}
+			_, fld := an.FieldLoad(an.Strip(hay))
+			if fld == nil || fld.Pkg() == nil || fld.Pkg().Path() != syntaxPath {
+				return
+			}
+			n++
+			// accepted: needle is name+"." / "."+name (delimiter made part of the needle)
+			delimited := false
+			if b, ok := needle.(*ssa.BinOp); ok && b.Op == token.ADD {
+				for _, side := range []ssa.Value{b.X, b.Y} {
+					if cv, isC := an.ConstVal(side); isC && cv.Kind() == constant.String && strings.Contains(constant.StringVal(cv), ".") {
+						delimited = true
+					}
+				}
+			}
+			// accepted: the byte after the matched prefix is compared with '.'
+			if !delimited {
+				an.Instrs(fn, func(in2 ssa.Instruction) {
+					b, ok := in2.(*ssa.BinOp)
+					if !ok || (b.Op != token.EQL && b.Op != token.NEQ) {
+						return
+					}
+					for _, pr := range [][2]ssa.Value{{b.X, b.Y}, {b.Y, b.X}} {
+						if ix, ok := an.Strip(pr[0]).(*ssa.Index); ok && an.IsIntConst(pr[1], '.') {
+							if _, f2 := an.FieldLoad(an.Strip(ix.X)); f2 == fld {
+								delimited = true
+							}
+						}
+					}
+				})
+			}
+			c.Check("G3", "whole-name-match("+fld.Name()+" vs "+f.Name()+")@"+an.FnName(fn), call.Pos(), delimited,
+				"a reference path is matched against a name with strings."+f.Name()+" and no '.' delimiter: a sibling whose name merely starts (ends) with the renamed one is rewritten as well")
+		})
+	}
+	// the same through slicing: field[:k] == name where k is not the position of a '.'
+	for _, fn := range fns {
+		an.Instrs(fn, func(in ssa.Instruction) {
+			b, ok := in.(*ssa.BinOp)
+			if !ok || (b.Op != token.EQL && b.Op != token.NEQ) {
+				return
+			}
+			for _, pr := range [][2]ssa.Value{{b.X, b.Y}, {b.Y, b.X}} {
+				sl, ok := an.Strip(pr[0]).(*ssa.Slice)
+				if !ok || sl.Low != nil || sl.High == nil {
+					continue
+				}
+				_, fld := an.FieldLoad(an.Strip(sl.X))
+				if fld == nil || fld.Pkg() == nil || fld.Pkg().Path() != syntaxPath {
+					continue
+				}
+				if _, isC := an.ConstVal(pr[1]); isC {
+					continue
+				}
+				n++
+				okHigh := false
+				if hc, ok := an.Strip(sl.High).(*ssa.Call); ok {
+					if f := hc.Call.StaticCallee(); f != nil && f.Pkg != nil && f.Pkg.Pkg.Path() == "strings" && len(hc.Call.Args) == 2 {
+						if cv, isC := an.ConstVal(hc.Call.Args[1]); isC {
+							switch cv.Kind() {
+							case constant.Int:
+								okHigh = an.IsIntConst(hc.Call.Args[1], '.')
+							case constant.String:
+								okHigh = constant.StringVal(cv) == "."
+							}
+						}
+					}
+				}
+				if bo, ok := pr[1].(*ssa.BinOp); ok && bo.Op == token.ADD {
+					for _, side := range []ssa.Value{bo.X, bo.Y} {
+						if cv, isC := an.ConstVal(side); isC && cv.Kind() == constant.String && strings.Contains(constant.StringVal(cv), ".") {
+							okHigh = true
+						}
+					}
+				}
+				c.Check("G3", "whole-name-match("+fld.Name()+" prefix slice)@"+an.FnName(fn), b.Pos(), okHigh,
+					"a prefix of a reference path is compared with a name; the prefix must end at a '.' (its length must come from the position of the delimiter), otherwise a sibling sharing the prefix matches")
+			}
+		})
+	}
+	c.Note("G3: %d functions scanned, %d partial string matches on syntax name fields", scanned, n)
+	c.Floor("G3", "first-segment comparisons of reference paths (field[:IndexByte(field,'.')] == name)", n, 1)
+	c.Floor("G3", "functions of package refactoring scanned for partial name matches", scanned, 40)
 }
 
 func paramOfType(fn *ssa.Function, suffix string) *ssa.Parameter {
